@@ -68,8 +68,15 @@ func Reset() { Log, armed, count = nil, nil, 0 }
 // Arm makes the given point fatal.
 func Arm(p Point) { armed = &p }
 
+// Yield, when non-nil, is called before every mutating operation (a scheduling point for C19: the
+// steps of one save - create, write, close, rename - can interleave with another session's).
+var Yield func()
+
 // op runs one mutating operation under the fault plan.
 func op(kind, name string, n int, do func(prefix int) error) error {
+	if Yield != nil {
+		Yield()
+	}
 	if !Active {
 		return do(-1)
 	}
